@@ -316,8 +316,14 @@ func c01Check(r *core.Run, st *c01stats, sigs *sync.Map, nsigs *int64, fam c01Fa
 					break
 				}
 			}
-			if tmplx.SigOf(tmplx.Tokenize(strings.ReplaceAll(outI, "&lt;", "<"), false), false) == sigA {
-				discr = "stray-lt-escaped" // the engine's rewrite of a stray '<' to &lt; is the whole difference
+			for _, t := range tokA.Tokens {
+				if t.Type == htmltok.Doctype && discr == "other" {
+					discr = "markup-inside-doctype" // the engine treats DOCTYPE contents as text (strips "comments" there)
+				}
+			}
+			unesc := strings.ReplaceAll(outI, "&lt;", "<")
+			if tmplx.SigOf(tmplx.Tokenize(unesc, false), false) == sigA || unesc == auth || unesc == c01StripRealComments(tokA) {
+				discr = "stray-lt-escaped" // the engine's rewrite of a stray '<' to &lt; (plus comment stripping) is the whole difference
 			}
 			r.Witness("author-structure", discr, n.Raw, fmt.Sprintf("program %s: output %s has structure %s, the author's markup %s has %s", core.Q(n.Raw), core.Q(outI), sigI, core.Q(auth), sigA), mk(-1, "", "", "author-structure"))
 		}
@@ -509,4 +515,18 @@ func c01StateFamily(s htmltok.State) string {
 		return "unquoted-attr-value"
 	}
 	return "tag"
+}
+
+// c01StripRealComments removes the spans of "<!--" comments from the tokenized input.
+func c01StripRealComments(res htmltok.Result) string {
+	in := res.Input
+	var b []byte
+	last := 0
+	for _, t := range res.Tokens {
+		if t.Type == htmltok.Comment && t.Start+4 <= len(in) && string(in[t.Start:t.Start+4]) == "<!--" {
+			b = append(b, in[last:t.Start]...)
+			last = t.End
+		}
+	}
+	return string(append(b, in[last:]...))
 }
